@@ -51,6 +51,7 @@ def run(chk, replay=None):
     C.strings_check(chk, drv, fs, want_identity=False)
     C.adjacent_nodes_check(chk, drv, want_identity=False)
     C.trees_check(chk, drv, want_identity=False)
+    C.extreme_trees_check(chk, drv, want_identity=False)
     C.documents_check(chk, want_identity=False, drv=drv)
     C.tableless_kwargs_check(chk)
     C.loaded_samples_check(chk)
